@@ -822,6 +822,10 @@ def const_text(t: str, bits) -> str:
     return ("0x%08X" if t == "f32" else "0x%016X") % bits + f" : {t}"
 
 
+def _succ_args(vals, tys) -> str:
+    return f"({', '.join(vals)} : {', '.join(tys)})" if vals else ""
+
+
 def op_text(o, fname: str = "") -> str:
     r, name, var, tys, a, x = o
     A = ["%" + s for s in a]
@@ -897,13 +901,10 @@ def op_text(o, fname: str = "") -> str:
     if name == "llvm.unreachable":
         return name
     if name == "llvm.br":
-        args = f"({', '.join(f'{v} : {t}' for v, t in zip(A, tys))})" if a else ""
-        return f"{name} ^{x['dest']}{args}"
+        return f"{name} ^{x['dest']}{_succ_args(A, tys)}"
     if name == "llvm.cond_br":
         nt = x["nt"]
-        ta = f"({', '.join(f'{v} : {t}' for v, t in zip(A[1:1 + nt], tys[1:1 + nt]))})" if nt else ""
-        ea = f"({', '.join(f'{v} : {t}' for v, t in zip(A[1 + nt:], tys[1 + nt:]))})" if len(a) > 1 + nt else ""
-        return f"{name} {A[0]}, ^{x['t']}{ta}, ^{x['e']}{ea}"
+        return f"{name} {A[0]}, ^{x['t']}{_succ_args(A[1:1 + nt], tys[1:1 + nt])}, ^{x['e']}{_succ_args(A[1 + nt:], tys[1 + nt:])}"
     raise RefError(f"no text for {name}")
 
 
@@ -1195,9 +1196,12 @@ def sl_programs(k: int, first: list[tuple], rest: list[tuple], maxargs: int = 3)
     yield from rec([], [], [], [])
 
 
+UNIT_OPS = INT_BIN + FLT_BIN + CASTS + FLT_UN_EXACT + FLT_BIN_INTR + tuple(FLT_UN_APPROX) + (
+    "llvm.icmp", "llvm.fcmp", "llvm.select", "llvm.mlir.constant", "llvm.intr.fma", "llvm.intr.pow")
+
+
 def is_unit_op(o) -> bool:
-    return bool(o[3]) and all(t in SCALARS for t in o[3] if t is not None) and result_type(o) is not None and o[1] not in (
-        "llvm.call", "llvm.call_intrinsic", "llvm.inline_asm", "llvm.load", "llvm.mlir.undef")
+    return o[1] in UNIT_OPS and all(t in SCALARS for t in o[3])
 
 
 def unit_prog(o) -> dict:
@@ -1638,7 +1642,7 @@ def misc_programs():
     # one function using the same intrinsic at two float types
     for name in ("llvm.intr.fabs", "llvm.intr.sqrt", "llvm.intr.copysign", "llvm.intr.fma"):
         n = {"llvm.intr.copysign": 2, "llvm.intr.fma": 3}.get(name, 1)
-        b = PB(["f32"], "f64", f"{name}|f32-and-f64-in-one-module", "misc")
+        b = PB(["f32"], "f64", "intrinsic|f32-and-f64-in-one-function", "misc")
         x = b.op(name, "none", ["f32"] * n, "f32", ["a0"] * n)
         y = b.op("llvm.fpext", "none", ["f32"], "f64", [x])
         yield b.ret(b.op(name, "none", ["f64"] * n, "f64", [y] * n), "f64")
@@ -1764,16 +1768,19 @@ def translate(text: str) -> dict:
     return {"stage": "ok", "ee": ee, "ir": ir}
 
 
-def err_class(msg: str) -> str:
-    line = ""
+def err_line(msg: str) -> str:
     for ln in msg.splitlines():
         ln = re.sub(r"^<string>:\d+:\d+: error: ", "", ln.strip())
         if ln and not ln.startswith(("LLVM IR parsing error", "^")):
-            line = ln
-            break
+            return ln
+    return ""
+
+
+def err_class(msg: str, nwords: int = 7) -> str:
+    line = err_line(msg)
     line = re.sub(r'%"[^"]*"|@"[^"]*"|%[\w.]+|@[\w.]+|\'[^\']*\'', " ", line)
     words = re.findall(r"[A-Za-z][A-Za-z_]+", line)
-    return "-".join(w.lower() for w in words[:7]) or "unknown"
+    return "-".join(w.lower() for w in words[:nwords]) or "unknown"
 
 
 def reference_table(prog) -> tuple[list, list, int, int]:
@@ -1883,7 +1890,7 @@ def _record_failure(st: Stats | None, progs, names, res: dict, what_prefix: str 
     ops = sorted({o[1].replace(".vec", "") + ("|" + o[2] if o[2] not in ("-", "none") else "") for p in progs for o in prog_ops(p)
                   if o[1] not in ("llvm.return", "llvm.mlir.constant")})
     single = len(progs) == 1
-    who = blame(progs[0], stage) if single else "module|" + "+".join(sorted({o.split("|")[0] for o in ops}))
+    who = blame(progs[0], stage) if single else "functions-in-one-module"
     wit = {"progs": progs, "mlir": module_text(progs, names), "stage": stage, "exception": res["exc"], "message": res["msg"][:300]}
     if stage == "xdsl-rejects":
         st.outcomes["xdsl-rejects-generated-text"] += 1
@@ -1899,13 +1906,15 @@ def _record_failure(st: Stats | None, progs, names, res: dict, what_prefix: str 
             st.extra["converter_raises"].append(entry)
     elif stage == "raises-internal":
         st.outcomes[f"raises-internal:{res['exc']}"] += 1
+        if not single or who == progs[0]["sig"]:    # shape programs: the op / construct + the class of the message
+            who = who.split("|")[0] + "|" + err_class(res["msg"], 4)
         st.violate(f"C23|convert|raises-internal|{res['exc']}|{who}",
                    f"{what_prefix}convert_module raised {res['exc']} ({res['msg'].splitlines()[0][:120] if res['msg'] else ''}) on a verified llvm-dialect module", wit)
     elif stage == "llvm-rejects":
         st.outcomes["llvm-rejects"] += 1
         cls = err_class(res["msg"])
         wit["llvm_ir"] = res["ir"][-1500:]
-        st.violate(f"C23|{who}|llvm-rejects|{cls}", f"{what_prefix}LLVM rejects the emitted IR: {res['msg'].strip().splitlines()[-1][:160] if res['msg'].strip() else cls}", wit)
+        st.violate(f"C23|{who}|llvm-rejects|{cls}", f"{what_prefix}LLVM rejects the emitted IR: {err_line(res['msg'])[:160]}", wit)
     else:
         st.outcomes["jit-error"] += 1
         st.violate(f"C23|jit|error|{who}", f"{what_prefix}MCJIT could not compile the emitted IR: {res['msg'][:160]}", wit)
